@@ -3,7 +3,11 @@ package main
 
 import (
 	"github.com/drand/drand/v2/zzverif/cli"
+	"github.com/drand/drand/v2/zzverif/engcrash"
+	"github.com/drand/drand/v2/zzverif/engdkgrun"
 	"github.com/drand/drand/v2/zzverif/engnode"
+	"github.com/drand/drand/v2/zzverif/engsecrecy"
+	"github.com/drand/drand/v2/zzverif/engsync"
 	"github.com/drand/drand/v2/zzverif/engtime"
 	"github.com/drand/drand/v2/zzverif/extract"
 )
@@ -13,5 +17,9 @@ func main() {
 		"extract": func(out string, _ int64, _ string) error { return extract.Run(cli.Repo, out) },
 		"time":    engtime.Run,
 		"node":    engnode.Run,
+		"sync":    engsync.Run,
+		"dkgrun":  engdkgrun.Run,
+		"secrecy": engsecrecy.Run,
+		"crash":   engcrash.Run,
 	})
 }
